@@ -364,7 +364,8 @@ def run_impl(case):
     if case["kind"] == "lib":
         res, skipped = tr.library_flows()
         return {"flows": {k: v["prog"] for k, v in res.items()}, "files": {k: v["file"] for k, v in res.items()}, "skipped": skipped,
-                "py_acyclic": {k: py_acyclic(v["prog"]) for k, v in res.items()}, "dynamic_send": sum(v["dynamic_send"] for v in res.values())}
+                "py_acyclic": {k: py_acyclic(v["prog"]) for k, v in res.items()},
+                "py_ranked": {k: py_ranked(v["prog"])[0] for k, v in res.items()}, "dynamic_send": sum(v["dynamic_send"] for v in res.values())}
     from nemoguardrails.colang.v2_x.runtime.flows import InternalEvents
     from nemoguardrails.colang.v2_x.runtime.runtime import create_flow_configs_from_flow_list
 
@@ -415,6 +416,7 @@ def run_impl(case):
             break
     obs["flows"] = progs or {}
     obs["py_acyclic"] = {k: py_acyclic(v) for k, v in (progs or {}).items()}
+    obs["py_ranked"] = {k: py_ranked(v)[0] for k, v in (progs or {}).items()}
     # uids -> small numbers for the matching-phase model
     ids = {}
     for s in obs["scans"]:
@@ -473,6 +475,75 @@ def py_acyclic(prog):
     return True
 
 
+def py_moves(prog, u, s):
+    """(slide moves incl. fork/merge continuation, resume moves) of state (u, s); s is a tuple of label positions"""
+    n = len(prog)
+    if u >= n:
+        return [], []
+    e = prog[u]
+    t = e[0]
+    if t == "wait":
+        return [], [(u + 1, s)] + ([(s[-1] + 1, s)] if s else [])
+    if t in ("step", "rl", "merge", "wh"):
+        return [(u + 1, s)], []
+    if t == "cpush":
+        return [(u + 1, s + (e[1],))], []
+    if t == "cpop":
+        return ([(u + 1, s[:-1])] if s else []), []
+    if t == "goto":
+        return ([(u + 1, s)] if e[1] is None else [(e[1] + 1, s), (u + 1, s)]), []
+    if t == "jump":
+        return ([(u + 1, s)] if e[1] is None else [(e[1] + 1, s)]), []
+    if t == "ret":
+        return [(n, s)], []
+    if t == "abort":
+        return ([(s[-1] + 1, s)] if s else [(n, s)]), []
+    if t == "fork":
+        return [(x + 1, s) for x in e[1]], []
+    raise ValueError(t)
+
+
+def py_ranked(prog):
+    """independent of the Lean checker: reachable (position, catch stack) states from the flow start; the position graph
+    restricted to the moves possible from those states must be acyclic"""
+    n = len(prog)
+    seen = {(0, ())}
+    work = [(0, ())]
+    edges = {}
+    cap = 64 * (n + 2)
+    while work:
+        u, s = work.pop()
+        cont, res = py_moves(prog, u, s)
+        for v, s2 in cont:
+            edges.setdefault(u, set()).add(v)
+        for m in cont + res:
+            if m[0] <= n and m not in seen:
+                seen.add(m)
+                work.append(m)
+                if len(seen) > cap:
+                    return False, seen
+    color = {}
+    for root in list(edges):
+        if root in color:
+            continue
+        stack = [(root, iter(edges.get(root, ())))]
+        color[root] = 1
+        while stack:
+            u, it = stack[-1]
+            nxt = next(it, None)
+            if nxt is None:
+                color[u] = 2
+                stack.pop()
+                continue
+            c = color.get(nxt, 0)
+            if c == 1:
+                return False, seen
+            if c == 0:
+                color[nxt] = 1
+                stack.append((nxt, iter(edges.get(nxt, ()))))
+    return True, seen
+
+
 # ----------------------------------------------------------------------------- model
 
 def _answers(rec, prog):
@@ -499,7 +570,8 @@ def model_requests(case, obs):
     reqs = []
     flows = obs.get("flows", {})
     for fid in sorted(flows):
-        reqs.append({"m": "C10.acyclic", "prog": flows[fid]})
+        starts = [[r["pos"], r["cstack"]] for r in obs.get("samples", []) if r["flow"] == fid and r["hstatus"] != "MERGING"]
+        reqs.append({"m": "C10.acyclic", "prog": flows[fid], "starts": starts})
     if case["kind"] == "lib":
         return reqs
     for rec in obs["samples"]:
@@ -550,6 +622,10 @@ def compare(case, obs, mouts):
         i += 1
         if m.get("acyclic") != obs["py_acyclic"][fid]:
             return f"flow {fid}: Lean checker slideAcyclic={m.get('acyclic')} but independent DFS says acyclic={obs['py_acyclic'][fid]}"
+        if m.get("ranked") != obs["py_ranked"][fid]:
+            return f"flow {fid}: Lean checker slideRanked={m.get('ranked')} but the independent state-graph search says {obs['py_ranked'][fid]}"
+        if m.get("ranked") and not all(m.get("starts_ok", [])):
+            return f"flow {fid}: a real slide() call started in a (position, catch stack) state outside the verified invariant"
     if case["kind"] == "lib":
         return None
     for rec in obs["samples"]:
@@ -633,7 +709,7 @@ def oracle(case, obs):
         if c["budget"] is not None and (c["slides"] > c["budget"] or c["ievents"] > c["budget"]):
             return f"processing of event {c['event']} exceeded B(program)={c['budget']}: slides={c['slides']} internal events={c['ievents']}"
     for f, it, n in obs["over_bound"]:
-        if obs["py_acyclic"].get(f):
+        if obs["py_acyclic"].get(f) or obs["py_ranked"].get(f):
             return f"slide on acyclic flow {f} made {it} iterations > |elements|+1 = {n + 1}"
     if len(obs["calls"]) != len(case["events"]):
         return "event script not completed"
@@ -676,7 +752,9 @@ def tags(case, obs):
     if case["kind"] == "lib":
         n = len(obs["flows"])
         cyc = sorted(k for k, v in obs["py_acyclic"].items() if not v)
-        return ["kind:lib", f"lib-flows:{n}", f"lib-cyclic:{len(cyc)}"] + [f"lib-cyclic-flow:{k}" for k in cyc[:8]] + [f"lib-skipped-files:{len(obs['skipped'])}"]
+        unr = sorted(k for k, v in obs["py_ranked"].items() if not v and not obs["py_acyclic"][k])
+        return ["kind:lib", f"lib-flows:{n}", f"lib-coarse-cyclic:{len(cyc)}", f"lib-hypothesis-not-established:{len(unr)}"] + \
+            [f"lib-unranked-flow:{k}" for k in unr[:8]] + [f"lib-skipped-files:{len(obs['skipped'])}"]
     meta = case["meta"]
     t = ["kind:prog", "mode:" + meta["mode"], "err:" + meta["kind"], "phase:" + meta["phase"], "waits-before:" + str(min(meta["waits_before"], 3))]
     if meta.get("nested"):
@@ -694,7 +772,7 @@ def tags(case, obs):
             if r["exc"]:
                 t.append("slide-exc:" + r["exc"])
                 break
-        if not all(obs["py_acyclic"].values()):
+        if not all(obs["py_acyclic"][k] or obs["py_ranked"][k] for k in obs["py_acyclic"]):
             t.append("has-cyclic-flow")
         mx = max([c["slides"] / c["budget"] for c in obs["calls"] if c["budget"]] or [0])
         t.append("budget-use:<" + ("1%" if mx < 0.01 else "5%" if mx < 0.05 else "25%" if mx < 0.25 else "100%"))
